@@ -198,7 +198,7 @@ PROPS = {
         "not_decided": "D-1/D/D+1 timing of hold-for-duration and on-idle; idle measurement — run-time values",
     },
     "C19": {
-        "rules": [r_dynmacro.run_all, r_dynmacro.rule_delay_reset, r_dynmacro.rule_save_id, r_dynmacro.rule_replay_arms, r_idle.run_only("DynamicMacroReplayState", "DynamicMacroRecordState")],
+        "rules": [r_dynmacro.run_all, r_dynmacro.rule_delay_reset, r_dynmacro.rule_save_id, r_dynmacro.rule_replay_arms, r_idle.run_only("DynamicMacroReplayState", "DynamicMacroRecordState"), r_dynmacro.rule_play_guard],
         "explanation": "Decides: (R-DM-RELEASE) in record_press / begin_record_macro / stop_macro every returned recording is "
                        "dominated by add_release_for_all_unreleased_presses and nothing that writes macro_items runs between that "
                        "call and the return; (R-DM-REC) in play_macro every queueing of replay items is dominated by inserting the "
